@@ -42,11 +42,11 @@ def runToolOp (j : Json) : Json :=
       infoBases := decStrTable j "info_bases", docRoot := root, opts := opts, safe := getBool j "safe",
       preexisting := getStrs j "preexisting" }
   -- the stages of the pipeline are also reported one by one, so that a disagreement is attributed
-  let disc := match discoverFrom inp.srcDir inp.files inp.isTestRun with
+  let disc := match discoverSorted inp.srcDir inp.files inp.isTestRun with
     | .ok (root, d) => Json.mkObj [("root", .str (pathStr root)), ("package", .str (pathStem root)),
         ("selected", .arr ((selectModules inp.graph d).map (Json.str ·.path)).toArray)]
     | .error e => Json.mkObj [("err", .str e.name)]
-  let al := match discoverFrom inp.srcDir inp.files inp.isTestRun with
+  let al := match discoverSorted inp.srcDir inp.files inp.isTestRun with
     | .ok (root, _) => encTable (getAliases (pathStem root) inp.aliasFacts)
     | .error _ => .null
   match runTool inp with
